@@ -57,8 +57,11 @@ pub fn Dec(input: TokenStream) -> TokenStream {
                 panic!("{}", ParseDecimalError::FracDigitLimitExceeded)
             }
             if exponent > 38 {
-                // 10 ^ 39 > int128::MAX
-                panic!("{}", ParseDecimalError::InternalOverflow);
+                if coeff != 0 {
+                    // 10 ^ 39 > int128::MAX
+                    panic!("{}", ParseDecimalError::InternalOverflow);
+                }
+                exponent = 0;
             }
             if exponent > 0 {
                 match coeff.checked_mul(10i128.pow(exponent as u32)) {
